@@ -33,7 +33,7 @@ func (c01) Rule() string {
 }
 func (c01) Batches(tier string) int { return 32 }
 func (c01) Required(string) []string {
-	return []string{"compared", "bytecode_changed_by_optimizer", "matrix_cases", "fold_table_cases", "generated", "refusals_validated", "tag.shadow-builtin", "tag.const-expr", "budget.1", "budget.100"}
+	return []string{"compared", "bytecode_changed_by_optimizer", "matrix_cases", "const_group_cases", "fold_table_cases", "generated", "refusals_validated", "tag.shadow-builtin", "tag.const-expr", "budget.1", "budget.100"}
 }
 func (c01) Assumptions() []string {
 	return []string{"the unoptimized compile+run is the reference (its own semantics are judged by C02)", "refusal validation evaluates the reported node's source text with literal-valued const declarations substituted"}
@@ -640,6 +640,31 @@ func (m c01) Run(c *core.Ctx) {
 		}
 		if idx%401 == 0 {
 			c.Sample(map[string]any{"kind": "matrix", "tags": p.Tags, "src": p.Src})
+		}
+	}
+	// (1c) const groups with implicit repetition: the expression of the first constant is compiled again for every
+	// following value-less constant (with another iota, and with whatever the names mean at that point - a constant of
+	// the group may re-declare a name the expression uses)
+	for _, expr := range []string{"x + iota", "iota * x", "x << iota", "len(\"ab\") + iota + x", "[x, iota, y][iota % 3]", "x + y + iota", "-x + iota", "iota == 1 ? x : -x", "string(x) + string(iota)", "x"} {
+		for _, names := range [][3]string{{"a", "b", "c"}, {"a", "x", "c"}, {"a", "b", "x"}, {"a", "y", "x"}, {"len", "b", "c"}} {
+			for _, outer := range []string{"const x = 1\nconst y = 2.5\n", "const (\n  x = 3\n  y = 4u\n)\n", "x := 1\ny := 2\n"} {
+				for wi, wrap := range []string{"%s%sreturn [%s, %s, %s]\n", "%sf := func() {\n%sreturn [%s, %s, %s]\n}\nreturn f()\n", "%sf := func() {\n  return func() {\n%sreturn [%s, %s, %s]\n  }\n}\nreturn f()()\n"} {
+					idx++
+					if idx%c.NBatch != c.Batch {
+						continue
+					}
+					group := "const (\n  " + names[0] + " = " + expr + "\n  " + names[1] + "\n  " + names[2] + "\n)\n"
+					src := "global L\n" + fmt.Sprintf(wrap, outer, group, names[0], names[1], names[2])
+					p := &Program{Src: src, Tags: []string{"const-group-repetition", fmt.Sprint(wi)}}
+					if !c.Begin(func() string { return src }) {
+						continue
+					}
+					if m.check(c, p, nil, noGlobals, []int{1, 2, 100}) {
+						c.Nontrivial(progHash(p))
+					}
+					c.Count("const_group_cases")
+				}
+			}
 		}
 	}
 	// (2) folding table
